@@ -189,7 +189,7 @@ CLAIMS = {
              "any number of sheets/tables with sibling-unique names the chosen qualification resolves to the stored table only and no "
              "shorter one does. Header labels, whole-row/column tracts, cross-table UUID lookup, quoting, and rename/relabel histories: "
              "bounded stand-in with an independent resolver, so the level is not 'proof'.",
-        text2="Also: ScopedNameRefCache._column_data/_row_data: the label of a column / row is the cell in the bottom header row / last header column (any number of header rows and columns). _format_row_span/_format_column_span for label spans: the qualification is dropped iff one of the two labels is document-unique.",
+        text2="Also: ScopedNameRefCache._column_data/_row_data: the label of a column / row is the cell in the bottom header row / last header column (any number of header rows and columns). _format_row_span/_format_column_span for label spans: the qualification is dropped iff one of the two labels is document-unique; _calculate_name_scopes for both axes: a line is named by its label iff it is a body line with a label that occurs once among the labels of the body lines of its own axis.",
         note="Assumes: protobuf nodes as records with HasField; CellRange(...) records its keyword arguments; naming functions uninterpreted "
              "in the lemmas. Trusted: " + TB,
         technique="contract-based deductive verification (path-complete symbolic execution of node_to_ref/expand_ref/_format_cell_range + "
